@@ -37,6 +37,8 @@ func main() {
 				os.Exit(1)
 			}
 		}
+	case "all":
+		os.Exit(cmdAll(os.Args[2:]))
 	case "replay":
 		os.Exit(cmdReplay(os.Args[2:]))
 	case "selftest":
@@ -251,4 +253,86 @@ func selftest(repo, verif string, props []string) int {
 	}
 	fmt.Printf("selftest: %d mutants analysed, %d skipped\n", ran, skipped)
 	return code
+}
+
+// cmdAll is the development driver behind tools/matrix.py: it loads each module
+// once and runs every property of that module on the shared program, printing
+// one JSON object {prop: {exit, lines}}.  It never writes into /verif (evidence
+// goes to the scratch -verif directory).  Not used by any registered check.
+func cmdAll(args []string) int {
+	fs := flag.NewFlagSet("all", flag.ExitOnError)
+	repo := fs.String("repo", "/repo", "repository root")
+	verif := fs.String("verif", "", "scratch verif dir (needs known_findings.json)")
+	mods := fs.String("modules", "bigtable,storage", "modules to run")
+	_ = fs.Parse(args)
+	if *verif == "" {
+		fmt.Fprintln(os.Stderr, "all: -verif scratch dir required")
+		return 2
+	}
+	_ = os.MkdirAll(filepath.Join(*verif, "evidence"), 0o755)
+	type res struct {
+		Exit  int      `json:"exit"`
+		Lines []string `json:"lines"`
+	}
+	result := map[string]res{}
+	wantMod := map[string]bool{}
+	for _, m := range strings.Split(*mods, ",") {
+		wantMod[m] = true
+	}
+	groups := map[string][]string{}
+	for _, id := range rules.PropertyIDs() {
+		ms := append([]string(nil), rules.Properties[id].Modules...)
+		sort.Strings(ms)
+		hit := false
+		for _, m := range ms {
+			hit = hit || wantMod[m]
+		}
+		if hit {
+			groups[strings.Join(ms, ",")] = append(groups[strings.Join(ms, ",")], id)
+		}
+	}
+	var gkeys []string
+	for k := range groups {
+		gkeys = append(gkeys, k)
+	}
+	sort.Strings(gkeys)
+	for _, gk := range gkeys {
+		p, err := core.Load(*repo, strings.Split(gk, ","), nil)
+		for _, id := range groups[gk] {
+			sp := rules.Properties[id]
+			if err != nil {
+				result[id] = res{2, []string{"CHECK-BROKEN: " + err.Error()}}
+				continue
+			}
+			func() {
+				defer func() {
+					if r := recover(); r != nil {
+						if be, ok := r.(*core.BrokenError); ok {
+							result[id] = res{2, []string{"CHECK-BROKEN: " + be.Msg}}
+							return
+						}
+						result[id] = res{2, []string{fmt.Sprintf("CHECK-BROKEN: panic in rule: %v\n%s", r, debug.Stack())}}
+					}
+				}()
+				ctx := core.NewCtx(p, "quick")
+				for _, r := range sp.Rules {
+					r.Run(ctx)
+				}
+				o := ctx.Finish(*verif, id, sp.Explanation, sp.NotDecided, sp.Assumptions, nil, time.Now(), 0)
+				var keep []string
+				for _, l := range o.Lines {
+					if strings.HasPrefix(l, "  ") || strings.HasPrefix(l, "CHECK-BROKEN") || strings.HasPrefix(l, "KNOWN-FINDING") {
+						keep = append(keep, strings.TrimSpace(l))
+					}
+				}
+				if keep == nil {
+					keep = []string{}
+				}
+				result[id] = res{o.ExitCode, keep}
+			}()
+		}
+	}
+	b, _ := json.MarshalIndent(result, "", " ")
+	fmt.Println(string(b))
+	return 0
 }
